@@ -27,7 +27,8 @@ theorem lineEndings_eq_E : Generated.lineEndings = E := rfl
     the JSONL theorems need — and the front set contains space and tab (blank lines) -/
 theorem stripSets_denote :
     10 ∈ Generated.rstripSet ∧ 13 ∈ Generated.rstripSet ∧
-    32 ∈ Generated.lstripSet ∧ 9 ∈ Generated.lstripSet := by decide
+    32 ∈ Generated.lstripSet ∧ 9 ∈ Generated.lstripSet ∧
+    32 ∈ Generated.lstripSetT ∧ 9 ∈ Generated.lstripSetT := by decide
 
 /-- the break sets the SPEC side uses (`strBreak` for `str.splitlines`, `bytesBreak` for
     `bytes.splitlines`) are the ones of the running interpreter: the two tables are regenerated on
@@ -255,176 +256,195 @@ variable {α ε : Type}
 
 /-- forward mode over a binary file, `ignore_errors=True`: exactly the objects of the non-blank,
     decodable LF/CRLF-separated lines, in order, and no error -/
-theorem jsonl_forward_binary (parse : List Nat → Except ε α)
+theorem jsonl_forward_binary (ws : Nat → Bool) (parse : List Nat → Except ε α)
     (c : List Nat) (hcr : noLoneCR c = true) :
-    jsonlForwardB parse true c = ((sepLines c).filterMap (objOf parse), none) := by
+    jsonlForwardB ws parse true c = ((sepLines c).filterMap (objOf ws parse), none) := by
   unfold jsonlForwardB
   rw [consume_ignore, ← filterMap_fileLinesB',
-    filterMap_rel parse _ _ (fileLinesB'_rel c hcr)]
+    filterMap_rel ws parse _ _ (fileLinesB'_rel c hcr)]
 
 /-- forward mode over a text-mode file (universal newlines), `ignore_errors=True` -/
-theorem jsonl_forward_text (parse : List Nat → Except ε α) (c : List Nat) :
-    jsonlForwardT parse true c = ((bytesSplitlines c).filterMap (objOf parse), none) := by
+theorem jsonl_forward_text (ws : Nat → Bool) (parse : List Nat → Except ε α) (c : List Nat) :
+    jsonlForwardT ws parse true c = ((bytesSplitlines c).filterMap (objOf ws parse), none) := by
   unfold jsonlForwardT bytesSplitlines
-  rw [consume_ignore, filterMap_rel parse _ _ (fileLinesT_rel false c)]
+  rw [consume_ignore, filterMap_rel ws parse _ _ (fileLinesT_rel false c)]
 
 /-- reverse mode, any block size ≥ 1, `ignore_errors=True` -/
-theorem jsonl_reverse (parse : List Nat → Except ε α) (c : List Nat) (bs : Nat) (hbs : 1 ≤ bs) :
-    jsonlReverse parse true bs c = (((bytesSplitlines c).filterMap (objOf parse)).reverse, none) := by
+theorem jsonl_reverse (ws : Nat → Bool) (parse : List Nat → Except ε α) (c : List Nat) (bs : Nat) (hbs : 1 ≤ bs) :
+    jsonlReverse ws parse true bs c = (((bytesSplitlines c).filterMap (objOf ws parse)).reverse, none) := by
   unfold jsonlReverse
   rw [consume_ignore, reverse_lines c bs hbs, List.filterMap_reverse, filterMap_linesOf]
 
 /-- reverse mode yields the objects of forward mode, reversed — text-mode files, every content,
     whatever the file size relative to the block size -/
-theorem jsonl_forward_reverse_text (parse : List Nat → Except ε α)
+theorem jsonl_forward_reverse_text (ws : Nat → Bool) (parse : List Nat → Except ε α)
     (c : List Nat) (bs : Nat) (hbs : 1 ≤ bs) :
-    jsonlReverse parse true bs c = ((jsonlForwardT parse true c).1.reverse, none) := by
-  rw [jsonl_reverse parse c bs hbs, jsonl_forward_text parse c]
+    jsonlReverse ws parse true bs c = ((jsonlForwardT ws parse true c).1.reverse, none) := by
+  rw [jsonl_reverse ws parse c bs hbs, jsonl_forward_text ws parse c]
 
 /-- … and binary files whose lines are LF- or CRLF-separated -/
-theorem jsonl_forward_reverse_binary (parse : List Nat → Except ε α)
+theorem jsonl_forward_reverse_binary (ws : Nat → Bool) (parse : List Nat → Except ε α)
     (c : List Nat) (hcr : noLoneCR c = true) (bs : Nat) (hbs : 1 ≤ bs) :
-    jsonlReverse parse true bs c = ((jsonlForwardB parse true c).1.reverse, none) := by
-  rw [jsonl_reverse parse c bs hbs, jsonl_forward_binary parse c hcr, ← filterMap_linesOf]
+    jsonlReverse ws parse true bs c = ((jsonlForwardB ws parse true c).1.reverse, none) := by
+  rw [jsonl_reverse ws parse c bs hbs, jsonl_forward_binary ws parse c hcr, ← filterMap_linesOf]
   by_cases hne : c = []
   · subst hne; simp [linesOf_nil, sepLines, objOf_nil]
   · rw [linesOf_eq_sepLines c hcr hne]
 
 /-- reverse mode does not depend on the block size, with or without `ignore_errors` -/
-theorem jsonl_blocksize_independent (parse : List Nat → Except ε α) (ig : Bool) (c : List Nat)
+theorem jsonl_blocksize_independent (ws : Nat → Bool) (parse : List Nat → Except ε α) (ig : Bool) (c : List Nat)
     (bs₁ bs₂ : Nat) (h₁ : 1 ≤ bs₁) (h₂ : 1 ≤ bs₂) :
-    jsonlReverse parse ig bs₁ c = jsonlReverse parse ig bs₂ c := by
+    jsonlReverse ws parse ig bs₁ c = jsonlReverse ws parse ig bs₂ c := by
   unfold jsonlReverse
   rw [blocksize_independent c bs₁ bs₂ h₁ h₂]
 
 /-- without `ignore_errors`: if forward mode gets through the file without an error, so does
     reverse mode, with the same objects reversed (binary, LF/CRLF-separated) -/
-theorem jsonl_strict_forward_reverse_binary (parse : List Nat → Except ε α)
+theorem jsonl_strict_forward_reverse_binary (ws : Nat → Bool) (parse : List Nat → Except ε α)
     (c : List Nat) (hcr : noLoneCR c = true) (bs : Nat) (hbs : 1 ≤ bs)
-    (hok : (jsonlForwardB parse false c).2 = none) :
-    jsonlReverse parse false bs c = ((jsonlForwardB parse false c).1.reverse, none) := by
-  have h1 : AllOk parse (fileLinesB c) := allOk_of_consume_strict parse _ hok
-  have h2 : AllOk parse (fileLinesB' c) := by
+    (hok : (jsonlForwardB ws parse false c).2 = none) :
+    jsonlReverse ws parse false bs c = ((jsonlForwardB ws parse false c).1.reverse, none) := by
+  have h1 : AllOk ws parse (fileLinesB c) := allOk_of_consume_strict ws parse _ hok
+  have h2 : AllOk ws parse (fileLinesB' c) := by
     unfold fileLinesB'
     intro l hl
     rcases List.mem_append.mp hl with hl | hl
     · exact h1 l hl
     · split at hl
-      · simp at hl; subst hl; exact okLine_nil parse
+      · simp at hl; subst hl; exact okLine_nil ws parse
       · cases hl
-  have h3 : AllOk parse (sepLines c) := (allOk_rel parse _ _ (fileLinesB'_rel c hcr)).mp h2
-  have h4 : AllOk parse (reverseIterLines c bs) := by
+  have h3 : AllOk ws parse (sepLines c) := (allOk_rel ws parse _ _ (fileLinesB'_rel c hcr)).mp h2
+  have h4 : AllOk ws parse (reverseIterLines c bs) := by
     by_cases hne : c = []
     · subst hne; rw [reverse_lines_empty]; intro l hl; cases hl
-    · rw [reverse_lines_separated c bs hbs hne hcr]; exact (allOk_reverse parse _).mpr h3
+    · rw [reverse_lines_separated c bs hbs hne hcr]; exact (allOk_reverse ws parse _).mpr h3
   unfold jsonlReverse jsonlForwardB
-  rw [consume_strict_of_allOk parse _ h4, consume_strict_of_allOk parse _ h1]
-  exact jsonl_forward_reverse_binary parse c hcr bs hbs
+  rw [consume_strict_of_allOk ws parse _ h4, consume_strict_of_allOk ws parse _ h1]
+  exact jsonl_forward_reverse_binary ws parse c hcr bs hbs
 
 /-- … and forward mode raises exactly when reverse mode does -/
-theorem jsonl_strict_error_iff_binary (parse : List Nat → Except ε α)
+theorem jsonl_strict_error_iff_binary (ws : Nat → Bool) (parse : List Nat → Except ε α)
     (c : List Nat) (hcr : noLoneCR c = true) (bs : Nat) (hbs : 1 ≤ bs) :
-    (jsonlForwardB parse false c).2 = none ↔ (jsonlReverse parse false bs c).2 = none := by
+    (jsonlForwardB ws parse false c).2 = none ↔ (jsonlReverse ws parse false bs c).2 = none := by
   constructor
-  · intro h; rw [jsonl_strict_forward_reverse_binary parse c hcr bs hbs h]
+  · intro h; rw [jsonl_strict_forward_reverse_binary ws parse c hcr bs hbs h]
   · intro h
-    have h4 : AllOk parse (reverseIterLines c bs) := allOk_of_consume_strict parse _ h
-    have h1 : AllOk parse (fileLinesB c) := by
+    have h4 : AllOk ws parse (reverseIterLines c bs) := allOk_of_consume_strict ws parse _ h
+    have h1 : AllOk ws parse (fileLinesB c) := by
       by_cases hne : c = []
       · subst hne; intro l hl; simp [fileLinesB] at hl
       · rw [reverse_lines_separated c bs hbs hne hcr] at h4
-        have h3 : AllOk parse (sepLines c) := (allOk_reverse parse _).mp h4
-        have h2 := (allOk_rel parse _ _ (fileLinesB'_rel c hcr)).mpr h3
+        have h3 : AllOk ws parse (sepLines c) := (allOk_reverse ws parse _).mp h4
+        have h2 := (allOk_rel ws parse _ _ (fileLinesB'_rel c hcr)).mpr h3
         intro l hl
         exact h2 l (by unfold fileLinesB'; exact List.mem_append.mpr (Or.inl hl))
     unfold jsonlForwardB
-    rw [consume_strict_of_allOk parse _ h1, consume_ignore]
+    rw [consume_strict_of_allOk ws parse _ h1, consume_ignore]
 
 /-- the same for text-mode files, every content -/
-theorem jsonl_strict_forward_reverse_text (parse : List Nat → Except ε α)
+theorem jsonl_strict_forward_reverse_text (ws : Nat → Bool) (parse : List Nat → Except ε α)
     (c : List Nat) (bs : Nat) (hbs : 1 ≤ bs)
-    (hok : (jsonlForwardT parse false c).2 = none) :
-    jsonlReverse parse false bs c = ((jsonlForwardT parse false c).1.reverse, none) := by
-  have h1 : AllOk parse (fileLinesT false c) := allOk_of_consume_strict parse _ hok
-  have h3 : AllOk parse (bytesSplitlines c) := (allOk_rel parse _ _ (fileLinesT_rel false c)).mp h1
-  have h4 : AllOk parse (reverseIterLines c bs) := by
+    (hok : (jsonlForwardT ws parse false c).2 = none) :
+    jsonlReverse ws parse false bs c = ((jsonlForwardT ws parse false c).1.reverse, none) := by
+  have h1 : AllOk ws parse (fileLinesT false c) := allOk_of_consume_strict ws parse _ hok
+  have h3 : AllOk ws parse (bytesSplitlines c) := (allOk_rel ws parse _ _ (fileLinesT_rel false c)).mp h1
+  have h4 : AllOk ws parse (reverseIterLines c bs) := by
     rw [reverse_lines c bs hbs]
-    apply (allOk_reverse parse _).mpr
+    apply (allOk_reverse ws parse _).mpr
     unfold linesOf
     intro l hl
     rcases List.mem_append.mp hl with hl | hl
     · exact h3 l hl
     · split at hl
-      · simp at hl; subst hl; exact okLine_nil parse
+      · simp at hl; subst hl; exact okLine_nil ws parse
       · cases hl
   unfold jsonlReverse jsonlForwardT
-  rw [consume_strict_of_allOk parse _ h4, consume_strict_of_allOk parse _ h1]
-  exact jsonl_forward_reverse_text parse c bs hbs
+  rw [consume_strict_of_allOk ws parse _ h4, consume_strict_of_allOk ws parse _ h1]
+  exact jsonl_forward_reverse_text ws parse c bs hbs
 
 /-- blank lines are skipped: a line made only of characters `.lstrip()` strips (space, tab, …),
     with or without its line break, contributes no object and no error -/
-theorem jsonl_blank_skipped (parse : List Nat → Except ε α) (ig : Bool) (l : List Nat)
-    (hl : ∀ c ∈ l, pyWs c = true) (ls : List (List Nat)) :
-    consume parse ig (l :: ls) = consume parse ig ls ∧
-    consume parse ig ((l ++ [10]) :: ls) = consume parse ig ls ∧
-    consume parse ig ((l ++ [13, 10]) :: ls) = consume parse ig ls := by
-  have h0 : lineNorm l = [] := lineNorm_blank l hl
-  have h1 : lineNorm (l ++ [10]) = [] := by rw [lineNorm_rel _ l (Or.inr (Or.inl rfl)), h0]
-  have h2 : lineNorm (l ++ [13, 10]) = [] := by rw [lineNorm_rel _ l (Or.inr (Or.inr rfl)), h0]
+theorem jsonl_blank_skipped (ws : Nat → Bool) (parse : List Nat → Except ε α) (ig : Bool) (l : List Nat)
+    (hl : ∀ c ∈ l, ws c = true) (ls : List (List Nat)) :
+    consume ws parse ig (l :: ls) = consume ws parse ig ls ∧
+    consume ws parse ig ((l ++ [10]) :: ls) = consume ws parse ig ls ∧
+    consume ws parse ig ((l ++ [13, 10]) :: ls) = consume ws parse ig ls := by
+  have h0 : lineNorm ws l = [] := lineNorm_blank ws l hl
+  have h1 : lineNorm ws (l ++ [10]) = [] := by rw [lineNorm_rel ws _ l (Or.inr (Or.inl rfl)), h0]
+  have h2 : lineNorm ws (l ++ [13, 10]) = [] := by rw [lineNorm_rel ws _ l (Or.inr (Or.inr rfl)), h0]
   refine ⟨?_, ?_, ?_⟩ <;> rw [consume] <;> simp [h0, h1, h2]
 
 /-- both directions hand `json.loads` the same bytes for a line, whether the line iterator
     delivered it with its line break (forward) or without (reverse) -/
-theorem jsonl_same_bytes_decoded (l : List Nat) :
-    lineNorm (l ++ [10]) = lineNorm l ∧ lineNorm (l ++ [13, 10]) = lineNorm l :=
-  ⟨lineNorm_rel _ l (Or.inr (Or.inl rfl)), lineNorm_rel _ l (Or.inr (Or.inr rfl))⟩
+theorem jsonl_same_bytes_decoded (ws : Nat → Bool) (l : List Nat) :
+    lineNorm ws (l ++ [10]) = lineNorm ws l ∧ lineNorm ws (l ++ [13, 10]) = lineNorm ws l :=
+  ⟨lineNorm_rel ws _ l (Or.inr (Or.inl rfl)), lineNorm_rel ws _ l (Or.inr (Or.inr rfl))⟩
+
+/-- TEXT MODE end to end: for a file whose content decodes to the text `t`, reverse mode as the code
+    does it (byte lines found backwards, each decoded, then `next`) is reverse mode over `t` itself —
+    so every `…_text` theorem above applies with `t` (a list of code points) as the content and
+    `str.lstrip`'s character set as `ws` -/
+theorem jsonl_text_reverse_decoded (ws : Nat → Bool) (parse : List Nat → Except ε α) (ig : Bool)
+    (c t : List Nat) (bs : Nat) (hbs : 1 ≤ bs) (hd : decodeG false c = some t) :
+    jsonlReverseText ws parse ig bs c = jsonlReverse ws parse ig bs t := by
+  unfold jsonlReverseText jsonlReverse reverseIterLinesText
+  rw [reverse_lines_text false c t bs hbs hd, reverse_lines t bs hbs]
+  congr 1
+  simp [List.filterMap_map]
+
+/-- hence: reverse mode over a text-mode file yields the objects of forward mode (universal
+    newlines over the decoded text), reversed -/
+theorem jsonl_text_forward_reverse (ws : Nat → Bool) (parse : List Nat → Except ε α)
+    (c t : List Nat) (bs : Nat) (hbs : 1 ≤ bs) (hd : decodeG false c = some t) :
+    jsonlReverseText ws parse true bs c = ((jsonlForwardT ws parse true t).1.reverse, none) := by
+  rw [jsonl_text_reverse_decoded ws parse true c t bs hbs hd, jsonl_forward_reverse_text ws parse t bs hbs]
 
 /-! ## every `next()` call, errors included (strict mode resumed after an error) -/
 
 /-- a plain `for` loop over the iterator sees the `next()` results up to the first error -/
-theorem jsonl_drain_is_prefix_of_outcomes (parse : List Nat → Except ε α) (ig : Bool) (ls : List (List Nat)) :
-    consume parse ig ls = untilError (outcomes parse ig ls) :=
-  consume_eq_untilError parse ig ls
+theorem jsonl_drain_is_prefix_of_outcomes (ws : Nat → Bool) (parse : List Nat → Except ε α) (ig : Bool) (ls : List (List Nat)) :
+    consume ws parse ig ls = untilError (outcomes ws parse ig ls) :=
+  consume_eq_untilError ws parse ig ls
 
 /-- the full statement for strict mode, with NO hypothesis on where errors occur: the sequence of
     `next()` results — objects AND raised errors, the iteration being resumed after each error — in
     reverse mode is the forward sequence reversed (binary, LF/CRLF-separated; any block size) -/
-theorem jsonl_outcomes_forward_reverse_binary (parse : List Nat → Except ε α) (ig : Bool)
+theorem jsonl_outcomes_forward_reverse_binary (ws : Nat → Bool) (parse : List Nat → Except ε α) (ig : Bool)
     (c : List Nat) (hcr : noLoneCR c = true) (bs : Nat) (hbs : 1 ≤ bs) :
-    outcomes parse ig (reverseIterLines c bs) = (outcomes parse ig (fileLinesB c)).reverse := by
+    outcomes ws parse ig (reverseIterLines c bs) = (outcomes ws parse ig (fileLinesB c)).reverse := by
   unfold outcomes
   rw [reverse_lines c bs hbs, List.filterMap_reverse]
   congr 1
   by_cases hne : c = []
   · subst hne; simp [linesOf_nil, fileLinesB]
-  · rw [linesOf_eq_sepLines c hcr hne, ← filterMap_fileLinesB'G _ (outcomeOf_nil parse ig),
-      filterMap_relG _ (outcomeOf_rel parse ig) _ _ (fileLinesB'_rel c hcr)]
+  · rw [linesOf_eq_sepLines c hcr hne, ← filterMap_fileLinesB'G _ (outcomeOf_nil ws parse ig),
+      filterMap_relG _ (outcomeOf_rel ws parse ig) _ _ (fileLinesB'_rel c hcr)]
 
 /-- the same for text-mode files, every content -/
-theorem jsonl_outcomes_forward_reverse_text (parse : List Nat → Except ε α) (ig : Bool)
+theorem jsonl_outcomes_forward_reverse_text (ws : Nat → Bool) (parse : List Nat → Except ε α) (ig : Bool)
     (c : List Nat) (bs : Nat) (hbs : 1 ≤ bs) :
-    outcomes parse ig (reverseIterLines c bs) = (outcomes parse ig (fileLinesT false c)).reverse := by
+    outcomes ws parse ig (reverseIterLines c bs) = (outcomes ws parse ig (fileLinesT false c)).reverse := by
   unfold outcomes
   rw [reverse_lines c bs hbs, List.filterMap_reverse]
   congr 1
-  rw [filterMap_linesOfG _ (outcomeOf_nil parse ig),
-    filterMap_relG _ (outcomeOf_rel parse ig) _ _ (fileLinesT_rel false c)]
+  rw [filterMap_linesOfG _ (outcomeOf_nil ws parse ig),
+    filterMap_relG _ (outcomeOf_rel ws parse ig) _ _ (fileLinesT_rel false c)]
   rfl
 
 /-! ## `cur_byte_pos` (forward mode, binary file) -/
 
 /-- one position per object of a plain loop -/
-theorem cur_byte_pos_per_object (parse : List Nat → Except ε α) (ig : Bool) (c : List Nat) :
-    (jsonlForwardPosB parse ig c).length = (jsonlForwardB parse ig c).1.length :=
-  consumePos_length parse ig 0 (fileLinesB c)
+theorem cur_byte_pos_per_object (ws : Nat → Bool) (parse : List Nat → Except ε α) (ig : Bool) (c : List Nat) :
+    (jsonlForwardPosB ws parse ig c).length = (jsonlForwardB ws parse ig c).1.length :=
+  consumePos_length ws parse ig 0 (fileLinesB c)
 
 /-- `cur_byte_pos` read after each object is strictly increasing, lies in `1 … size`, and always
     stands at the end of a line (just after a LF, or at the end of the file) -/
-theorem cur_byte_pos_increasing (parse : List Nat → Except ε α) (ig : Bool) (c : List Nat) :
-    List.Pairwise (· < ·) (jsonlForwardPosB parse ig c) ∧
-    ∀ q ∈ jsonlForwardPosB parse ig c,
+theorem cur_byte_pos_increasing (ws : Nat → Bool) (parse : List Nat → Except ε α) (ig : Bool) (c : List Nat) :
+    List.Pairwise (· < ·) (jsonlForwardPosB ws parse ig c) ∧
+    ∀ q ∈ jsonlForwardPosB ws parse ig c,
       0 < q ∧ q ≤ c.length ∧ (q = c.length ∨ endsNL (c.take q) = true) := by
-  have h := consumePos_spec parse ig c.length [] c (Nat.le_refl _)
+  have h := consumePos_spec ws parse ig c.length [] c (Nat.le_refl _)
   simpa [jsonlForwardPosB] using h
 
 /-! ## JSONLIterator with `rel_seek` (text-mode files of single-byte characters) -/
@@ -450,11 +470,11 @@ theorem align_to_newline_spec (c : List Nat) (target p : Nat) (h : alignToNewlin
     file: what reverse mode yields (read backwards from the aligned position), reversed, followed by
     what forward mode yields (read from there on), is what a plain forward pass yields — nothing is
     lost or seen twice, for every block size (`ignore_errors=True`) -/
-theorem jsonl_rel_seek_partition (parse : List Nat → Except ε α) (c : List Nat) (target bs : Nat)
+theorem jsonl_rel_seek_partition (ws : Nat → Bool) (parse : List Nat → Except ε α) (c : List Nat) (target bs : Nat)
     (hbs : 1 ≤ bs) (f r : List α × Option ε)
-    (hf : jsonlRelSeek parse true false bs c target = some f)
-    (hr : jsonlRelSeek parse true true bs c target = some r) :
-    (jsonlForwardT parse true c).1 = r.1.reverse ++ f.1 ∧ f.2 = none ∧ r.2 = none := by
+    (hf : jsonlRelSeek ws parse true false bs c target = some f)
+    (hr : jsonlRelSeek ws parse true true bs c target = some r) :
+    (jsonlForwardT ws parse true c).1 = r.1.reverse ++ f.1 ∧ f.2 = none ∧ r.2 = none := by
   unfold jsonlRelSeek at hf hr
   cases hp : alignToNewline c target with
   | none => rw [hp] at hf; simp at hf
@@ -464,13 +484,13 @@ theorem jsonl_rel_seek_partition (parse : List Nat → Except ε α) (c : List N
     subst hf hr
     obtain ⟨_, ⟨x, b', hd, hx⟩, _⟩ := align_to_newline_spec c target p hp
     rw [consume_ignore, consume_ignore, reverse_lines_from_position c p bs hbs,
-      List.filterMap_reverse, filterMap_linesOf, jsonl_forward_text parse c]
+      List.filterMap_reverse, filterMap_linesOf, jsonl_forward_text ws parse c]
     refine ⟨?_, rfl, rfl⟩
     simp only [List.reverse_reverse]
-    rw [filterMap_rel parse _ _ (fileLinesT_rel false (c.drop p))]
+    rw [filterMap_rel ws parse _ _ (fileLinesT_rel false (c.drop p))]
     have hc : c = c.take p ++ x :: b' := by rw [← hd, List.take_append_drop]
     conv => lhs; rw [hc]
-    rw [filterMap_cut_at_break parse _ x b' hx, hd]
+    rw [filterMap_cut_at_break ws parse _ x b' hx, hd]
     rfl
 
 /-! ## non-vacuity -/
@@ -498,14 +518,14 @@ def toyParse (l : List Nat) : Except Unit Nat :=
   if l = [51] then .ok 3 else .error ()
 
 -- "\n3\n \nx\r\n3\n": blank lines, a corrupt line, CRLF; block size 5 (the former failure)
-example : jsonlForwardB toyParse true [10, 51, 10, 32, 10, 120, 13, 10, 51, 10] = ([3, 3], none) := by decide
-example : jsonlReverse toyParse true 5 [10, 51, 10, 32, 10, 120, 13, 10, 51, 10] = ([3, 3], none) := by decide
-example : (jsonlForwardB toyParse false [10, 51, 10, 32, 10, 51, 10]).2 = none := by decide
-example : (jsonlForwardB toyParse false [10, 51, 10, 120, 10, 51, 10]) = ([3], some ()) := by decide
+example : jsonlForwardB pyWs toyParse true [10, 51, 10, 32, 10, 120, 13, 10, 51, 10] = ([3, 3], none) := by decide
+example : jsonlReverse pyWs toyParse true 5 [10, 51, 10, 32, 10, 120, 13, 10, 51, 10] = ([3, 3], none) := by decide
+example : (jsonlForwardB pyWs toyParse false [10, 51, 10, 32, 10, 51, 10]).2 = none := by decide
+example : (jsonlForwardB pyWs toyParse false [10, 51, 10, 120, 10, 51, 10]) = ([3], some ()) := by decide
 
 -- the former defect C19-jsonl-break-dependent-decoding: a line with a NUL byte, b"\x001\n"
-example : lineNorm [0, 49, 10] = [0, 49] ∧ lineNorm [0, 49] = [0, 49] := by decide
-example : lineNorm [32, 9, 51, 13, 13, 10] = [51] := by decide
+example : lineNorm pyWs [0, 49, 10] = [0, 49] ∧ lineNorm pyWs [0, 49] = [0, 49] := by decide
+example : lineNorm pyWs [32, 9, 51, 13, 13, 10] = [51] := by decide
 example : ∀ c ∈ [32, 9, 32], pyWs c = true := by decide
 -- read schedules: block size 3 from the end reads 1+3+3 bytes last, aligned reads 3+3+1
 example : revLoopS [10, 195, 169, 13, 10, 98, 10] (alignedRead 3) 7 7 [] = [[], [98], [195, 169], []] := by decide
@@ -531,9 +551,9 @@ example : strictUtf8 [237, 160, 128] = false ∧ validUtf8 [237, 160, 128] = tru
 
 -- rel_seek: "3\n3\r\nx\n3" from offset 2 (inside the second record): aligned ON the CR at offset 3
 example : alignToNewline [51, 10, 51, 13, 10, 120, 10, 51] 2 = some 3 := by decide
-example : jsonlRelSeek toyParse true false 4096 [51, 10, 51, 13, 10, 120, 10, 51] 2 = some ([3], none) := by decide
-example : jsonlRelSeek toyParse true true 4096 [51, 10, 51, 13, 10, 120, 10, 51] 2 = some ([3, 3], none) := by decide
-example : (jsonlForwardT toyParse true [51, 10, 51, 13, 10, 120, 10, 51]).1 = [3, 3, 3] := by decide
+example : jsonlRelSeek pyWs toyParse true false 4096 [51, 10, 51, 13, 10, 120, 10, 51] 2 = some ([3], none) := by decide
+example : jsonlRelSeek pyWs toyParse true true 4096 [51, 10, 51, 13, 10, 120, 10, 51] 2 = some ([3, 3], none) := by decide
+example : (jsonlForwardT pyWs toyParse true [51, 10, 51, 13, 10, 120, 10, 51]).1 = [3, 3, 3] := by decide
 -- no line break after the target: the code's alignment loop does not end (outside the model)
 example : alignToNewline [51, 10, 51] 2 = none := by decide
 
@@ -543,13 +563,17 @@ example : reverseIterLinesText [97, 226, 128, 168, 195, 169, 10, 98] 2 = [some [
 example : decodeG false [237, 160, 128] = none ∧ decodeG true [237, 160, 128] = some [55296] := by decide
 
 -- strict mode resumed after the error on "x": forward 3, error, 3 — reverse the same backwards
-example : (outcomes toyParse false (fileLinesB [51, 10, 120, 10, 51, 10])).map Except.toOption
+example : (outcomes pyWs toyParse false (fileLinesB [51, 10, 120, 10, 51, 10])).map Except.toOption
     = [some 3, none, some 3] := by decide
-example : (outcomes toyParse false (reverseIterLines [51, 10, 120, 10, 51, 10] 2)).map Except.toOption
+example : (outcomes pyWs toyParse false (reverseIterLines [51, 10, 120, 10, 51, 10] 2)).map Except.toOption
     = [some 3, none, some 3] := by decide
-example : untilError (outcomes toyParse false (fileLinesB [51, 10, 120, 10, 51, 10])) = ([3], some ()) := by decide
+example : untilError (outcomes pyWs toyParse false (fileLinesB [51, 10, 120, 10, 51, 10])) = ([3], some ()) := by decide
 
 -- cur_byte_pos on "3\n\nx\r\n3\n  3": after the records: offsets 2, 8 and 11 (= size)
-example : jsonlForwardPosB toyParse true [51, 10, 10, 120, 13, 10, 51, 10, 32, 32, 51] = [2, 8, 11] := by decide
+example : jsonlForwardPosB pyWs toyParse true [51, 10, 10, 120, 13, 10, 51, 10, 32, 32, 51] = [2, 8, 11] := by decide
+
+-- text mode: "<NBSP>3\n3" (c2 a0 33 0a 33): str.lstrip removes the NBSP, bytes.lstrip would not
+example : jsonlReverseText pyWsT toyParse true 2 [194, 160, 51, 10, 51] = ([3, 3], none) := by decide
+example : (jsonlReverse pyWs toyParse true 2 [194, 160, 51, 10, 51]).1 = [3] := by decide
 
 end C19
